@@ -281,6 +281,51 @@ def reread_with_columns(r, n_cases):
     return n
 
 
+def foreign_bytes(r):
+    """a protein-group table that is not valid UTF-8 (written by a Windows producer in cp1252: umlauts, the micro sign): the FDR filter and
+    the re-read either refuse it or hand the kept rows / identifiers back unchanged - never silently altered (monitor only)"""
+    import tempfile
+    from picked_group_fdr.parsers import maxquant as mqp
+    from picked_group_fdr.pipeline import filter_fdr_maxquant as f
+    d = tempfile.mkdtemp(prefix="c13bytes_", dir=core.scratch())
+    header = ["Protein IDs", "Majority protein IDs", "Peptide counts (unique)", "Best peptide", "Number of proteins", "Q-value", "Score",
+              "Reverse", "Potential contaminant", "Fasta headers"]
+    rows = [["M\u00dcLLER_HUMAN", "M\u00dcLLER_HUMAN", "3", "", "1", "0.001", "12.5", "", "", "M\u00fcller kinase 5 \u00b5g"],
+            ["M\u00d6LLER_HUMAN", "M\u00d6LLER_HUMAN", "2", "", "1", "0.002", "11.5", "", "", "plain"],
+            ["REV__sp|P3|X", "REV__sp|P3|X", "1", "", "1", "0.5", "1.5", "+", "", ""]]
+    n = 0
+    for enc in ("utf-8", "cp1252"):
+        path, out = os.path.join(d, f"pg_{enc}.txt"), os.path.join(d, f"pg_{enc}_filtered.txt")
+        data = "".join("\t".join(row) + "\r\n" for row in [header] + rows).encode(enc)
+        with open(path, "wb") as fh:
+            fh.write(data)
+        n += 1
+        problem = None
+        try:
+            f.filterProteinGroupsAtFDR([path], out, 0.01)
+            kept = open(out, "rb").read().splitlines()
+            if kept[1:] != data.splitlines()[1:3]:
+                problem = f"the FDR filter returned normally but the kept rows are not the input rows: {kept[1:2]}"
+        except UnicodeDecodeError:
+            pass
+        except Exception as e:
+            problem = f"filter raised {type(e).__name__}: {e}"[:160]
+        if problem is None:
+            try:
+                back = [x.proteinIds for x in mqp.parse_mq_protein_groups_file(path)]
+                if back != [row[0] for row in rows]:
+                    problem = f"the re-read returned normally but the identifiers are {back}"
+            except UnicodeDecodeError:
+                pass
+            except Exception as e:
+                problem = f"re-read raised {type(e).__name__}: {e}"[:160]
+        if problem:
+            r.violation("property-failure", {"suite": "foreign_bytes", "encoding_of_the_file": enc, "problem": problem}, True,
+                        f"foreign_bytes: a table written in {enc}: {problem}"[:400])
+            break
+    return n
+
+
 def long_cells(r):
     """a very large group: identifier cells far beyond the csv module's default field limit (131072 characters) are written, read back
     and filtered like any other cell (monitor only: the strings are too long for a Coq literal)"""
@@ -326,4 +371,4 @@ def run(r: core.Runner):
     ]
     for s in SUITES:
         r.run_suite(s, max_report=2)
-    r.traces = (r.traces or 0) + (long_cells(r) or 0) + reread_with_columns(r, core.tier_n(r.tier, 60, 800))
+    r.traces = (r.traces or 0) + (long_cells(r) or 0) + reread_with_columns(r, core.tier_n(r.tier, 60, 800)) + foreign_bytes(r)
